@@ -90,4 +90,42 @@ theorem commonRowids_spec (i : IIndex) (h : WF i) (hi : List Int) (r : Nat) :
     r ∈ commonRowidsHi i hi ↔ r < i.nrows ∧ denseAt i r hi = i.common :=
   mem_commonRowidsHi_dense i h hi r
 
+/-- **`items(force=True)` / `to_dict(force=True)`**: every item `(key, rows)` lists exactly the rows where the
+dense array holds `key[0]` in column `key[1:]` — the explicit entries and the materialised common rows alike -/
+theorem itemsForce_spec (i : IIndex) (h : WF i) (hnd : i.ndim ≤ 2) (x : Key × Rows) (hx : x ∈ itemsForce i) (r : Nat) :
+    r ∈ x.2 ↔ r < i.nrows ∧ denseAt i r (x.1.drop 1) = val0 x.1 := by
+  unfold itemsForce at hx
+  have hentry : ∀ e ∈ i.entries, (r ∈ e.2 ↔ r < i.nrows ∧ denseAt i r (e.1.drop 1) = val0 e.1) := by
+    intro e he
+    have hpos : 0 < e.1.length := by rw [h.arity e he]; exact h.ndimPos
+    have := listed_iff_dense i h e.1 hpos (h.noCommon e he) r
+    constructor
+    · intro hr
+      have := this.mp ⟨e.2, he, hr⟩
+      exact ⟨this.1, this.2.2⟩
+    · rintro ⟨hr, hd⟩
+      by_cases hex : ∃ e' ∈ i.entries, e'.1.drop 1 = e.1.drop 1 ∧ r ∈ e'.2
+      · obtain ⟨rows, hm, hrr⟩ := this.mpr ⟨hr, hex, hd⟩
+        have h1 := dget_of_mem i.entries h.keys _ hm
+        have h2 := dget_of_mem i.entries h.keys _ he
+        simp only at h1 h2
+        rw [h1] at h2; cases h2; exact hrr
+      · have := denseAt_of_not_mem i r (e.1.drop 1) (fun e' he' h1 h2 => hex ⟨e', he', h1, h2⟩)
+        rw [this] at hd
+        exact absurd hd.symm (h.noCommon e he)
+  by_cases h1 : i.ndim = 1
+  · simp only [h1, if_true, List.mem_append, List.mem_singleton] at hx
+    rcases hx with hx | rfl
+    · exact hentry x hx
+    · have : commonRowids i none = commonRowidsHi i [] := by unfold commonRowids; simp [h1]
+      simp only [this, List.drop_succ_cons, List.drop_zero, List.drop_nil]
+      rw [mem_commonRowidsHi_dense i h]; rfl
+  · simp only [h1, if_false, List.mem_append, List.mem_map, List.mem_range] at hx
+    rcases hx with hx | ⟨c, _, rfl⟩
+    · exact hentry x hx
+    · have h2 : i.ndim > 1 := by have := h.ndimPos; omega
+      have : commonRowids i (some (c : Int)) = commonRowidsHi i [(c : Int)] := by unfold commonRowids; simp [h2]
+      simp only [this, List.drop_succ_cons, List.drop_zero]
+      rw [mem_commonRowidsHi_dense i h]; rfl
+
 end Catii.IIdx
